@@ -419,7 +419,7 @@ checked the same way (the request-side conditions travel with the request). non-
     ],
     randoms: &[RandomDef {
         name: "decorated",
-        cases: |t: Tier| t.pick(200_000, 40_000_000),
+        cases: |t: Tier| t.pick(600_000, 40_000_000),
         tape_len: 600,
         exec: Some(exec_random),
     }],
